@@ -73,17 +73,17 @@ class Addr:
         self.created = datetime.datetime.utcnow()
 
         if self.expires is not None:
+            # time left from now; an expiry already in the past means "at once"
+            if self.expires <= self.created:
+                diff = datetime.timedelta(seconds=0)
+            else:
+                diff = self.expires - self.created
             if oldexpires is None:
-                if self.expires <= self.created:
-                    diff = datetime.timedelta(seconds=0)
-                else:
-                    diff = self.expires - self.created
                 self.expiry = self.map.scheduler.callLater(diff.total_seconds(),
                                                            self._expire)
 
             else:
-                diff = self.expires - oldexpires
-                self.expiry.delay(diff.total_seconds())
+                self.expiry.reset(diff.total_seconds())
 
     def _cancel_expiry(self):
         """
